@@ -5,38 +5,78 @@ import (
 	"go/constant"
 	"go/token"
 	"go/types"
+	"os"
+	"sort"
 	"strings"
 
 	"golang.org/x/tools/go/ssa"
 )
 
+// NondetVal is one recorded nondeterministic input of a counterexample.
+type NondetVal struct {
+	Fn    string `json:"fn"`
+	Kind  string `json:"kind"`
+	W     int    `json:"w,omitempty"`
+	Val   uint64 `json:"val"`
+	Len   uint64 `json:"len,omitempty"`
+	Bytes string `json:"bytes,omitempty"` // hex
+	// SymLen is the full length the solver chose (Bytes may be capped)
+}
+
 type Violation struct {
-	Kind  string
-	Msg   string
-	Where string
-	Model map[string]string
+	Kind     string      `json:"kind"` // panic | assert | progress | alloc | exit | unwind
+	Msg      string      `json:"msg"`
+	Where    string      `json:"where"`
+	Site     string      `json:"site"` // stable key: function | source line text | msg
+	Harness  string      `json:"harness"`
+	Model    []NondetVal `json:"model"`
+	Notes    []string    `json:"notes,omitempty"`
+	HasModel bool        `json:"has_model"`
 }
 
 type Exec struct {
-	prog       *ssa.Program
-	sol        *Solver
-	unwind     int
-	nSym       int
-	Paths      int
-	Instrs     int
-	Forks      int
-	Unsupp     map[string]int
-	UnwindHit  int
-	Infeasible int
-	Violations []Violation
-	seenViol   map[string]bool
-	opaqueErrT types.Type
-	maxViol    int
-	MaxVisit   int
-	trace      bool
+	ld               *Loaded
+	prog             *ssa.Program
+	sol              *Solver
+	unwind           int
+	Paths            int
+	PathEnds         map[string]int
+	Instrs           int
+	Forks            int
+	Unsupp           map[string]int
+	UnwindHit        int
+	Infeasible       int
+	Violations       []Violation
+	seenViol         map[string]bool
+	opaqueErrT       types.Type
+	maxViol          int
+	MaxVisit         int
+	trace            bool
+	Reached          map[string]int
+	Funcs            map[string]bool // functions whose SSA was executed
+	Samples          []string
+	harness          string
+	params           map[string]int64
+	splitIdx         int
+	known            map[string]bool
+	maxBytes         int
+	initDone         bool
+	lenient          bool // init mode: unsupported calls yield opaque values
+	progress         *progressMon
+	allocBound       *Term
+	traces           [][]Event
+	Notes            map[string]int
+	maxPaths         int
+	stopped          bool
+	srcCache         map[string][]string
+	noFork           int
+	traceMode        bool
+	curThread        int
+	sharedObjs       map[int]bool
+	fatalIsViolation bool
 }
 
-func NewExec(prog *ssa.Program, sol *Solver, unwind int) *Exec {
+func NewExec(ld *Loaded, sol *Solver, unwind int) *Exec {
 	// synthetic dynamic type for errors produced by fmt.Errorf / errors.New
 	errIface := types.Universe.Lookup("error").Type().Underlying().(*types.Interface)
 	sig := errIface.Method(0).Type().(*types.Signature)
@@ -44,15 +84,12 @@ func NewExec(prog *ssa.Program, sol *Solver, unwind int) *Exec {
 	named := types.NewNamed(tn, types.NewStruct(nil, nil), nil)
 	recv := types.NewVar(token.NoPos, nil, "e", named)
 	named.AddMethod(types.NewFunc(token.NoPos, nil, "Error", types.NewSignatureType(recv, nil, nil, sig.Params(), sig.Results(), false)))
-	return &Exec{prog: prog, sol: sol, unwind: unwind, Unsupp: map[string]int{}, seenViol: map[string]bool{}, opaqueErrT: named, maxViol: 20}
+	return &Exec{ld: ld, prog: ld.prog, sol: sol, unwind: unwind, Unsupp: map[string]int{}, seenViol: map[string]bool{}, opaqueErrT: named,
+		maxViol: 40, Reached: map[string]int{}, Funcs: map[string]bool{}, PathEnds: map[string]int{}, params: map[string]int64{}, known: map[string]bool{},
+		maxBytes: 4096, Notes: map[string]int{}, maxPaths: 2000000, srcCache: map[string][]string{}}
 }
 
-func (ex *Exec) fresh(prefix string, w int) *Term {
-	ex.nSym++
-	n := fmt.Sprintf("%s!%d", prefix, ex.nSym)
-	ex.sol.Declare(n, sortOf(w))
-	return &Term{s: n, w: w}
-}
+func (ex *Exec) fresh(prefix string, w int) *Term { return ex.sol.Fresh(prefix, w) }
 
 func (ex *Exec) feasible(c *Term) bool {
 	if c.isConst {
@@ -61,51 +98,141 @@ func (ex *Exec) feasible(c *Term) bool {
 	return ex.sol.Check(c) != "unsat"
 }
 
-func (ex *Exec) where(st *State, ins ssa.Instruction) string {
-	p := ex.prog.Fset.Position(ins.Pos())
-	fn := ins.Parent()
-	if !p.IsValid() && len(st.frames) > 0 {
-		return fn.String()
+func (ex *Exec) srcLine(file string, line int) string {
+	ls, ok := ex.srcCache[file]
+	if !ok {
+		var b []byte
+		if ov, isOv := ex.ld.overlay[file]; isOv {
+			b = ov
+		} else {
+			b, _ = os.ReadFile(file)
+		}
+		ls = strings.Split(string(b), "\n")
+		ex.srcCache[file] = ls
 	}
-	return fmt.Sprintf("%s (%s:%d)", fn.String(), p.Filename, p.Line)
+	if line >= 1 && line <= len(ls) {
+		return strings.TrimSpace(ls[line-1])
+	}
+	return ""
 }
 
-func (ex *Exec) recordViolation(st *State, kind, msg, where string, cond *Term) {
-	key := kind + "|" + where + "|" + msg
-	if ex.seenViol[key] {
+func (ex *Exec) where(ins ssa.Instruction) (string, string) {
+	p := ex.prog.Fset.Position(ins.Pos())
+	fn := ins.Parent()
+	if !p.IsValid() {
+		// fall back to the position of the function
+		return fn.String(), fn.String() + "|?"
+	}
+	txt := ex.srcLine(p.Filename, p.Line)
+	return fmt.Sprintf("%s (%s:%d)", fn.String(), p.Filename, p.Line), fn.String() + "|" + txt
+}
+
+func (ex *Exec) model(st *State) ([]NondetVal, bool) {
+	var out []NondetVal
+	var qs []string
+	var qi []int
+	for i, nd := range st.nondet {
+		switch nd.kind {
+		case "bytes":
+			if nd.lenT.isConst {
+				continue
+			}
+			qs = append(qs, nd.lenT.s)
+			qi = append(qi, i)
+		case "const":
+		default:
+			qs = append(qs, nd.name)
+			qi = append(qi, i)
+		}
+	}
+	got := map[int]uint64{}
+	ok := true
+	if len(qs) > 0 {
+		vals := ex.sol.GetValues(qs)
+		for k, i := range qi {
+			v, okv := parseBV(vals[k])
+			if !okv {
+				ok = false
+			}
+			got[i] = v
+		}
+	}
+	for i, nd := range st.nondet {
+		nv := NondetVal{Fn: nd.fn, Kind: nd.kind, W: nd.w}
+		switch nd.kind {
+		case "const":
+			nv.Val = nd.lenT.v
+		case "bytes":
+			n := got[i]
+			if nd.lenT.isConst {
+				n = nd.lenT.v
+			}
+			nv.Len = n
+			if n > uint64(ex.maxBytes) {
+				n = uint64(ex.maxBytes)
+			}
+			var bq []string
+			for j := uint64(0); j < n; j++ {
+				bq = append(bq, fmt.Sprintf("(select %s #x%016x)", nd.name, j))
+			}
+			var sb strings.Builder
+			if len(bq) > 0 {
+				for _, b := range ex.sol.GetValues(bq) {
+					x, okb := parseBV(b)
+					if !okb {
+						ok = false
+					}
+					fmt.Fprintf(&sb, "%0*x", nd.w/4, x)
+				}
+			}
+			nv.Bytes = sb.String()
+		default:
+			nv.Val = got[i]
+		}
+		out = append(out, nv)
+	}
+	return out, ok
+}
+
+func (ex *Exec) recordViolation(st *State, kind, msg string, ins ssa.Instruction, cond *Term) {
+	where, site := ex.where(ins)
+	site = site + "|" + msg
+	key := kind + "|" + site
+	if ex.seenViol[key] || len(ex.Violations) >= ex.maxViol {
 		return
 	}
 	ex.seenViol[key] = true
-	v := Violation{Kind: kind, Msg: msg, Where: where, Model: map[string]string{}}
-	// extract model
-	ex.sol.Push()
-	if cond != nil {
-		ex.sol.Assert(cond)
-	}
-	if ex.sol.Check() == "sat" {
-		for _, nd := range st.nondet {
-			switch nd.kind {
-			case "bytes":
-				lv := ex.sol.GetValues([]string{nd.lenT.s})[nd.lenT.s]
-				v.Model[nd.name+".len"] = lv
-				var n uint64
-				fmt.Sscanf(strings.TrimPrefix(lv, "#x"), "%x", &n)
-				if n > 96 {
-					n = 96
-				}
-				var sb strings.Builder
-				for i := uint64(0); i < n; i++ {
-					q := fmt.Sprintf("(select %s #x%016x)", nd.name, i)
-					b := ex.sol.GetValues([]string{q})[q]
-					sb.WriteString(strings.TrimPrefix(b, "#x"))
-				}
-				v.Model[nd.name] = sb.String()
-			default:
-				v.Model[nd.name] = ex.sol.GetValues([]string{nd.name})[nd.name]
-			}
+	v := Violation{Kind: kind, Msg: msg, Where: where, Site: site, Harness: ex.harness, Notes: append([]string(nil), st.notes...)}
+	// prefer small buffers in the counterexample (replay needs to allocate them)
+	var lens []*Term
+	for _, nd := range st.nondet {
+		if nd.kind == "bytes" && !nd.lenT.isConst {
+			lens = append(lens, nd.lenT)
 		}
 	}
-	ex.sol.Pop()
+	bounds := []uint64{64, 2048, 65536, 0}
+	if len(lens) == 0 {
+		bounds = []uint64{0}
+	}
+	for _, b := range bounds {
+		cs := []*Term{}
+		if cond != nil {
+			cs = append(cs, cond)
+		}
+		if b != 0 {
+			for _, l := range lens {
+				cs = append(cs, bvCmp("bvule", l, u64(int64(b))))
+			}
+		}
+		r := ex.sol.CheckKeep(cs...)
+		if r == "sat" {
+			v.Model, v.HasModel = ex.model(st)
+		}
+		ex.sol.Pop()
+		if r == "sat" {
+			break
+		}
+	}
 	ex.Violations = append(ex.Violations, v)
 }
 
@@ -114,16 +241,18 @@ func (ex *Exec) check(st *State, bad *Term, kind, msg string, ins ssa.Instructio
 	if bad.isConst && bad.v == 0 {
 		return true
 	}
-	where := ex.where(st, ins)
 	if bad.isConst {
-		ex.recordViolation(st, kind, msg, where, nil)
+		ex.recordViolation(st, kind, msg, ins, nil)
 		return false
 	}
 	r := ex.sol.Check(bad)
 	if r == "sat" {
-		ex.recordViolation(st, kind, msg, where, bad)
+		ex.recordViolation(st, kind, msg, ins, bad)
 	} else if r == "unknown" {
-		ex.Unsupp["unknown verdict at "+where]++
+		w, _ := ex.where(ins)
+		ex.Unsupp["solver answered unknown for a "+kind+" query at "+w]++
+	} else {
+		return true // unsat: the negation is implied by the path condition
 	}
 	ok := tNot(bad)
 	if ex.sol.Check(ok) == "unsat" {
@@ -135,35 +264,74 @@ func (ex *Exec) check(st *State, bad *Term, kind, msg string, ins ssa.Instructio
 
 // ---------------------------------------------------------------------------
 
-func (ex *Exec) RunHarness(fn *ssa.Function) {
+func (ex *Exec) newState() *State {
 	n := 0
-	st := &State{heap: map[int]*Obj{}, globals: map[*ssa.Global]int{}, nextObj: &n, reached: map[string]bool{}}
+	return &State{heap: map[int]*Obj{}, globals: map[*ssa.Global]int{}, nextObj: &n, ghost: map[string]Value{}}
+}
+
+func (ex *Exec) RunHarness(fn *ssa.Function) {
+	ex.harness = fn.Name()
+	st := ex.newState()
+	ex.sol.Push()
+	func() {
+		defer func() {
+			if r := recover(); r != nil {
+				if e, ok := r.(execErr); ok {
+					ex.Unsupp["init: "+e.msg]++
+					return
+				}
+				panic(r)
+			}
+		}()
+		ex.runInits(st)
+	}()
 	fr := &Frame{fn: fn, block: fn.Blocks[0], env: map[ssa.Value]Value{}, visits: map[int]int{}}
 	st.frames = []*Frame{fr}
-	ex.sol.Push()
+	ex.Funcs[fn.String()] = true
 	ex.run(st)
 	ex.sol.Pop()
 }
 
-func (ex *Exec) endPath(kind string) {
+func (ex *Exec) endPath(st *State, kind string) {
 	ex.Paths++
-	_ = kind
+	ex.PathEnds[kind]++
+	if kind == "done" && len(st.events) > 0 {
+		ex.traces = append(ex.traces, st.events)
+	}
+	if ex.Paths >= ex.maxPaths {
+		ex.stopped = true
+	}
+}
+
+func (ex *Exec) note(st *State, s string) {
+	st.notes = append(st.notes, s)
 }
 
 func (ex *Exec) run(st *State) {
 	defer func() {
 		if r := recover(); r != nil {
 			if e, ok := r.(execErr); ok {
-				ex.Unsupp[e.msg]++
-				ex.Paths++
+				msg := e.msg
+				if len(st.frames) > 0 {
+					fr := st.top()
+					if fr.ip > 0 && fr.ip <= len(fr.block.Instrs) {
+						w, _ := ex.where(fr.block.Instrs[fr.ip-1])
+						msg += " @ " + w
+					}
+				}
+				ex.Unsupp[msg]++
+				ex.endPath(st, "unsupported")
 				return
 			}
 			panic(r)
 		}
 	}()
 	for {
+		if ex.stopped {
+			return
+		}
 		if len(st.frames) == 0 {
-			ex.endPath("done")
+			ex.endPath(st, "done")
 			return
 		}
 		fr := st.top()
@@ -171,7 +339,7 @@ func (ex *Exec) run(st *State) {
 		fr.ip++
 		ex.Instrs++
 		if ex.trace {
-			fmt.Printf("  [%d] %s: %v\n", len(st.frames), fr.fn.Name(), ins)
+			fmt.Fprintf(os.Stderr, "  [%d] %s: %v\n", len(st.frames), fr.fn.Name(), ins)
 		}
 		switch ins := ins.(type) {
 		case *ssa.DebugRef:
@@ -183,7 +351,7 @@ func (ex *Exec) run(st *State) {
 			p := ex.eval(st, ins.X).(PtrV)
 			if p.obj == 0 {
 				ex.check(st, tTrue, "panic", "nil pointer dereference", ins)
-				ex.endPath("panic")
+				ex.endPath(st, "panic")
 				return
 			}
 			fr.env[ins] = PtrV{obj: p.obj, path: extendPath(p.path, PathElem{field: ins.Field})}
@@ -192,28 +360,29 @@ func (ex *Exec) run(st *State) {
 			fr.env[ins] = s.f[ins.Field]
 		case *ssa.IndexAddr:
 			if !ex.indexAddr(st, fr, ins) {
-				ex.endPath("panic")
 				return
 			}
 		case *ssa.Index:
-			fail("Index instruction")
+			if !ex.index(st, fr, ins) {
+				return
+			}
 		case *ssa.UnOp:
 			if !ex.unop(st, fr, ins) {
-				ex.endPath("panic")
 				return
 			}
 		case *ssa.BinOp:
 			if !ex.binop(st, fr, ins) {
-				ex.endPath("panic")
+				ex.endPath(st, "panic")
 				return
 			}
 		case *ssa.Store:
 			p := ex.eval(st, ins.Addr).(PtrV)
 			if p.obj == 0 {
 				ex.check(st, tTrue, "panic", "nil pointer dereference", ins)
-				ex.endPath("panic")
+				ex.endPath(st, "panic")
 				return
 			}
+			ex.emitAccess(st, p, true)
 			st.store(p, ex.eval(st, ins.Val))
 		case *ssa.Convert:
 			fr.env[ins] = ex.convert(st, ins)
@@ -225,19 +394,49 @@ func (ex *Exec) run(st *State) {
 			fr.env[ins] = IfaceV{t: ins.X.Type(), v: ex.eval(st, ins.X)}
 		case *ssa.TypeAssert:
 			if !ex.typeAssert(st, fr, ins) {
-				ex.endPath("panic")
+				ex.endPath(st, "panic")
 				return
 			}
 		case *ssa.Extract:
 			fr.env[ins] = ex.eval(st, ins.Tuple).(TupleV)[ins.Index]
 		case *ssa.Slice:
 			if !ex.slice(st, fr, ins) {
-				ex.endPath("panic")
+				ex.endPath(st, "panic")
 				return
 			}
 		case *ssa.MakeSlice:
 			if !ex.makeSlice(st, fr, ins) {
-				ex.endPath("panic")
+				return
+			}
+		case *ssa.MakeMap:
+			mt := ins.Type().Underlying().(*types.Map)
+			id := st.alloc(ins.Type(), &MapV{kt: mt.Key(), vt: mt.Elem()})
+			fr.env[ins] = MapRef{obj: id}
+		case *ssa.MapUpdate:
+			if !ex.mapUpdate(st, fr, ins) {
+				return
+			}
+		case *ssa.Lookup:
+			if !ex.lookup(st, fr, ins) {
+				return
+			}
+		case *ssa.Range:
+			fr.env[ins] = ex.rangeStart(st, ins)
+		case *ssa.Next:
+			fr.env[ins] = ex.rangeNext(st, fr, ins)
+		case *ssa.MakeChan:
+			sz := ex.eval(st, ins.Size).(*Term)
+			if !sz.isConst {
+				fail("make(chan) with symbolic size")
+			}
+			id := st.alloc(ins.Type(), &ChanV{cap: int(sz.v)})
+			fr.env[ins] = ChanRef{obj: id}
+		case *ssa.Send:
+			if !ex.chanSend(st, fr, ins) {
+				return
+			}
+		case *ssa.Select:
+			if !ex.selectInstr(st, fr, ins) {
 				return
 			}
 		case *ssa.Phi:
@@ -258,7 +457,6 @@ func (ex *Exec) run(st *State) {
 				}
 				continue
 			}
-			c = ex.sol.Name(c)
 			ct := ex.feasible(c)
 			cf := true
 			if ct { // if the true side is infeasible the false side must be feasible (path condition is satisfiable)
@@ -266,6 +464,9 @@ func (ex *Exec) run(st *State) {
 			}
 			switch {
 			case ct && cf:
+				if ex.noFork > 0 {
+					fail("symbolic branch inside a synchronous call")
+				}
 				ex.Forks++
 				st2 := st.clone()
 				ex.sol.Push()
@@ -283,15 +484,18 @@ func (ex *Exec) run(st *State) {
 				ex.sol.Pop()
 				return
 			case ct:
+				ex.sol.facts.Learn(c, true)
 				if !ex.jump(st, fr, fr.block.Succs[0]) {
 					return
 				}
 			case cf:
+				ex.sol.facts.Learn(c, false)
 				if !ex.jump(st, fr, fr.block.Succs[1]) {
 					return
 				}
 			default:
 				ex.Infeasible++
+				ex.endPath(st, "infeasible")
 				return
 			}
 		case *ssa.Return:
@@ -309,8 +513,14 @@ func (ex *Exec) run(st *State) {
 				res = tv
 			}
 			st.frames = st.frames[:len(st.frames)-1]
-			if len(st.frames) > 0 && fr.call != nil {
+			if fr.onReturn != nil {
+				fr.onReturn(st, res)
+			} else if len(st.frames) > 0 && fr.call != nil {
 				st.top().env[fr.call] = res
+			}
+			if fr.sync {
+				st.ghost["$syncResult"] = res
+				return
 			}
 		case *ssa.Call:
 			if !ex.call(st, fr, ins.Common(), ins) {
@@ -322,10 +532,18 @@ func (ex *Exec) run(st *State) {
 			for _, a := range cc.Args {
 				d.args = append(d.args, ex.eval(st, a))
 			}
-			if !cc.IsInvoke() {
-				if _, isB := cc.Value.(*ssa.Builtin); !isB {
-					d.fn = ex.eval(st, cc.Value)
+			if cc.IsInvoke() {
+				recv := ex.eval(st, cc.Value).(IfaceV)
+				if recv.t == nil {
+					fail("deferred call on nil interface")
 				}
+				m := ex.prog.LookupMethod(recv.t, cc.Method.Pkg(), cc.Method.Name())
+				d.fn = FuncV{fn: m}
+				d.args = append([]Value{recv.v}, d.args...)
+			} else if b, isB := cc.Value.(*ssa.Builtin); isB {
+				d.builtin = b
+			} else {
+				d.fn = ex.eval(st, cc.Value)
 			}
 			fr.defers = append(fr.defers, d)
 		case *ssa.RunDefers:
@@ -333,17 +551,24 @@ func (ex *Exec) run(st *State) {
 				d := fr.defers[n-1]
 				fr.defers = fr.defers[:n-1]
 				fr.ip-- // come back here afterwards
+				if d.builtin != nil {
+					if d.builtin.Name() == "close" {
+						ex.chanClose(st, d.args[0], ins)
+						continue
+					}
+					fail("deferred builtin %s", d.builtin.Name())
+				}
 				fv, ok := d.fn.(FuncV)
 				if !ok || fv.fn == nil {
 					fail("deferred call of unsupported kind")
 				}
-				if !ex.enter(st, fv, d.args, nil, ins) {
+				if !ex.dispatch(st, fr, fv, d.args, nil, ins) {
 					return
 				}
 			}
 		case *ssa.Panic:
 			ex.check(st, tTrue, "panic", "explicit panic", ins)
-			ex.endPath("panic")
+			ex.endPath(st, "panic")
 			return
 		case *ssa.MakeClosure:
 			fv := FuncV{fn: ins.Fn.(*ssa.Function)}
@@ -352,7 +577,14 @@ func (ex *Exec) run(st *State) {
 			}
 			fr.env[ins] = fv
 		case *ssa.Go:
-			// goroutines are not started; recorded only
+			// goroutines are not started; the spawned call is recorded
+			cc := ins.Common()
+			name := "?"
+			if f := cc.StaticCallee(); f != nil {
+				name = f.String()
+			}
+			st.notes = append(st.notes, "go "+name)
+			ex.Notes["go statement not started: "+name]++
 		default:
 			fail("unsupported instruction %T", ins)
 		}
@@ -366,8 +598,15 @@ func (ex *Exec) jump(st *State, fr *Frame, to *ssa.BasicBlock) bool {
 	}
 	if fr.visits[to.Index] > ex.unwind {
 		ex.UnwindHit++
-		ex.endPath("unwind")
+		w := fr.fn.String()
+		ex.Notes["unwind bound hit in "+w]++
+		ex.endPath(st, "unwind")
 		return false
+	}
+	if ex.progress != nil {
+		if !ex.progressCheck(st, fr, to) {
+			return false
+		}
 	}
 	from := fr.block
 	fr.prev = from
@@ -398,31 +637,34 @@ func (ex *Exec) jump(st *State, fr *Frame, to *ssa.BasicBlock) bool {
 	return true
 }
 
+func (ex *Exec) globalObj(st *State, v *ssa.Global) int {
+	id, ok := st.globals[v]
+	if !ok {
+		*st.nextObj++
+		id = *st.nextObj
+		st.globals[v] = id
+	}
+	if st.heap[id] == nil {
+		elem := v.Type().Underlying().(*types.Pointer).Elem()
+		st.heap[id] = &Obj{typ: elem, val: zeroValue(elem)}
+	}
+	return id
+}
+
 func (ex *Exec) eval(st *State, v ssa.Value) Value {
 	switch v := v.(type) {
 	case *ssa.Const:
 		return ex.constValue(v)
 	case *ssa.Global:
-		id, ok := st.globals[v]
-		if !ok {
-			*st.nextObj++
-			id = *st.nextObj
-			st.globals[v] = id
-		}
-		if st.heap[id] == nil {
-			elem := v.Type().Underlying().(*types.Pointer).Elem()
-			st.heap[id] = &Obj{typ: elem, val: zeroValue(elem)}
-		}
-		return PtrV{obj: id}
+		return PtrV{obj: ex.globalObj(st, v)}
 	case *ssa.Function:
 		return FuncV{fn: v}
+	case *ssa.Builtin:
+		fail("builtin %s used as value", v.Name())
 	}
 	fr := st.top()
 	if x, ok := fr.env[v]; ok {
 		return x
-	}
-	if fv, ok := v.(*ssa.FreeVar); ok {
-		_ = fv
 	}
 	fail("eval: no value for %s (%T) in %s", v.Name(), v, fr.fn.Name())
 	return nil
@@ -444,7 +686,11 @@ func (ex *Exec) constValue(c *ssa.Const) Value {
 		return boolConst(constant.BoolVal(c.Value))
 	}
 	if isString(t) {
-		return StrV{segs: []Seg{{lit: constant.StringVal(c.Value)}}}
+		return litStr(constant.StringVal(c.Value))
+	}
+	if fw := floatWidth(t); fw != 0 {
+		f, _ := constant.Float64Val(c.Value)
+		return concreteFloat(f, fw)
 	}
 	fail("constant of type %s", t)
 	return nil
@@ -459,12 +705,14 @@ func (ex *Exec) unop(st *State, fr *Frame, ins *ssa.UnOp) bool {
 		p := x.(PtrV)
 		if p.obj == 0 {
 			ex.check(st, tTrue, "panic", "nil pointer dereference", ins)
+			ex.endPath(st, "panic")
 			return false
 		}
+		ex.emitAccess(st, p, false)
 		v := st.load(p)
-		// globals of type error that were never initialised (package init is not
-		// run in the spike) are opaque non-nil errors
-		if g, ok := ins.X.(*ssa.Global); ok {
+		// variables of packages outside the repository are not initialised (their init is
+		// not run): error-typed ones are distinct opaque non-nil errors keyed by name
+		if g, ok := ins.X.(*ssa.Global); ok && !ex.ld.isRepoPkg(g.Pkg) {
 			if iv, ok := v.(IfaceV); ok && iv.t == nil && types.Identical(g.Type().Underlying().(*types.Pointer).Elem(), types.Universe.Lookup("error").Type()) {
 				v = IfaceV{t: ex.opaqueErrT, v: OpaqueV{kind: "err", id: g.String()}}
 			}
@@ -478,6 +726,8 @@ func (ex *Exec) unop(st *State, fr *Frame, ins *ssa.UnOp) bool {
 	case token.XOR:
 		t := x.(*Term)
 		fr.env[ins] = bvBin("bvxor", t, bvConst(^uint64(0), t.w))
+	case token.ARROW:
+		return ex.chanRecv(st, fr, ins)
 	default:
 		fail("unop %s", ins.Op)
 	}
@@ -496,6 +746,10 @@ func (ex *Exec) binop(st *State, fr *Frame, ins *ssa.BinOp) bool {
 				fr.env[ins] = tEq(xv, yv)
 			case token.NEQ:
 				fr.env[ins] = tNot(tEq(xv, yv))
+			case token.AND, token.LAND:
+				fr.env[ins] = tAnd(xv, yv)
+			case token.OR, token.LOR:
+				fr.env[ins] = tOr(xv, yv)
 			default:
 				fail("bool binop %s", ins.Op)
 			}
@@ -526,12 +780,19 @@ func (ex *Exec) binop(st *State, fr *Frame, ins *ssa.BinOp) bool {
 			r = bvBin("bvand", xv, bvBin("bvxor", yv, bvConst(^uint64(0), yv.w)))
 		case token.SHL, token.SHR:
 			cnt := yv
+			_, cntSigned, _ := intInfo(ins.Y.Type())
+			if cntSigned {
+				if !ex.check(st, bvCmp("bvslt", cnt, bvConst(0, cnt.w)), "panic", "negative shift amount", ins) {
+					return false
+				}
+			}
 			var big *Term = tFalse
 			if cnt.w > xv.w {
 				big = bvCmp("bvuge", cnt, bvConst(uint64(xv.w), cnt.w))
 				cnt = bvExtract(xv.w-1, 0, cnt)
 			} else {
 				cnt = bvZext(cnt, xv.w)
+				big = bvCmp("bvuge", cnt, bvConst(uint64(xv.w), xv.w))
 			}
 			if ins.Op == token.SHL {
 				r = tIte(big, bvConst(0, xv.w), bvBin("bvshl", xv, cnt))
@@ -564,56 +825,139 @@ func (ex *Exec) binop(st *State, fr *Frame, ins *ssa.BinOp) bool {
 			fail("int binop %s", ins.Op)
 		}
 		fr.env[ins] = r
-	case IfaceV:
-		yv := y.(IfaceV)
-		var eq *Term
-		switch {
-		case xv.t == nil || yv.t == nil:
-			eq = boolConst(xv.t == nil && yv.t == nil)
-		default:
-			xo, ok1 := xv.v.(OpaqueV)
-			yo, ok2 := yv.v.(OpaqueV)
-			if ok1 && ok2 {
-				eq = boolConst(xo == yo)
-			} else if !types.Identical(xv.t, yv.t) {
-				eq = tFalse
-			} else {
-				fail("interface comparison of %s", xv.t)
-			}
-		}
-		if ins.Op == token.NEQ {
-			eq = tNot(eq)
-		}
-		fr.env[ins] = eq
-	case PtrV:
-		yv := y.(PtrV)
-		eq := boolConst(xv.obj == yv.obj && fmt.Sprint(xv.path) == fmt.Sprint(yv.path))
-		if ins.Op == token.NEQ {
-			eq = tNot(eq)
-		}
-		fr.env[ins] = eq
-	case SliceV:
-		yv := y.(SliceV)
-		eq := boolConst(xv.obj == 0 && yv.obj == 0)
-		if xv.obj != 0 && yv.obj != 0 {
-			fail("slice comparison")
-		}
-		if ins.Op == token.NEQ {
-			eq = tNot(eq)
-		}
-		fr.env[ins] = eq
 	case StrV:
 		yv := y.(StrV)
 		switch ins.Op {
 		case token.ADD:
-			fr.env[ins] = StrV{segs: append(append([]Seg(nil), xv.segs...), yv.segs...)}
+			fr.env[ins] = xv.concat(yv)
+		case token.EQL, token.NEQ:
+			eq := ex.strEq(xv, yv)
+			if ins.Op == token.NEQ {
+				eq = tNot(eq)
+			}
+			fr.env[ins] = eq
+		case token.LSS, token.LEQ, token.GTR, token.GEQ:
+			a, ok1 := xv.concrete()
+			b, ok2 := yv.concrete()
+			if !ok1 || !ok2 {
+				fail("ordered comparison of non-literal strings")
+			}
+			var r bool
+			switch ins.Op {
+			case token.LSS:
+				r = a < b
+			case token.LEQ:
+				r = a <= b
+			case token.GTR:
+				r = a > b
+			case token.GEQ:
+				r = a >= b
+			}
+			fr.env[ins] = boolConst(r)
 		default:
 			fail("string binop %s", ins.Op)
 		}
 	default:
-		fail("binop on %T", x)
+		switch ins.Op {
+		case token.EQL, token.NEQ:
+			eq := ex.valueEq(st, x, y)
+			if ins.Op == token.NEQ {
+				eq = tNot(eq)
+			}
+			fr.env[ins] = eq
+		default:
+			fail("binop %s on %T", ins.Op, x)
+		}
 	}
 	return true
+}
+
+// valueEq is Go's == on two values of the same static type.
+func (ex *Exec) valueEq(st *State, x, y Value) *Term {
+	switch xv := x.(type) {
+	case *Term:
+		return tEq(xv, y.(*Term))
+	case StrV:
+		return ex.strEq(xv, y.(StrV))
+	case FloatV:
+		yv := y.(FloatV)
+		if xv.bits.isConst && yv.bits.isConst && xv.w == yv.w {
+			return boolConst(xv.bits.v == yv.bits.v) // (ignores NaN/-0; concrete only)
+		}
+		fail("float comparison")
+	case IfaceV:
+		yv := y.(IfaceV)
+		switch {
+		case xv.t == nil || yv.t == nil:
+			return boolConst(xv.t == nil && yv.t == nil)
+		case !types.Identical(xv.t, yv.t):
+			return tFalse
+		default:
+			if _, isS := xv.t.Underlying().(*types.Slice); isS {
+				fail("comparing uncomparable interface values")
+			}
+			return ex.valueEq(st, xv.v, yv.v)
+		}
+	case OpaqueV:
+		yv, ok := y.(OpaqueV)
+		return boolConst(ok && xv == yv)
+	case PtrV:
+		yv := y.(PtrV)
+		return boolConst(xv.obj == yv.obj && pathString(xv.path) == pathString(yv.path))
+	case SliceV:
+		yv := y.(SliceV)
+		if xv.obj != 0 && yv.obj != 0 {
+			fail("slice comparison")
+		}
+		return boolConst(xv.obj == 0 && yv.obj == 0)
+	case MapRef:
+		yv := y.(MapRef)
+		return boolConst(xv.obj == yv.obj)
+	case ChanRef:
+		yv := y.(ChanRef)
+		return boolConst(xv.obj == yv.obj)
+	case FuncV:
+		yv := y.(FuncV)
+		return boolConst(xv.fn == nil && yv.fn == nil)
+	case StructV:
+		yv := y.(StructV)
+		r := tTrue
+		for i := range xv.f {
+			r = tAnd(r, ex.valueEq(st, xv.f[i], yv.f[i]))
+		}
+		return r
+	case ArrV:
+		yv := y.(ArrV)
+		r := tTrue
+		for i := range xv.e {
+			r = tAnd(r, ex.valueEq(st, xv.e[i], yv.e[i]))
+		}
+		return r
+	case BytesV:
+		yv := y.(BytesV)
+		if !xv.n.isConst {
+			fail("array comparison with symbolic length")
+		}
+		r := tTrue
+		for i := uint64(0); i < xv.n.v; i++ {
+			r = tAnd(r, tEq(xv.a.sel(u64(int64(i))), yv.a.sel(u64(int64(i)))))
+		}
+		return r
+	}
+	fail("== on %T", x)
+	return nil
+}
+
+func pathString(p []PathElem) string {
+	var sb strings.Builder
+	for _, e := range p {
+		if e.idx != nil {
+			sb.WriteString("[" + e.idx.s + "]")
+		} else {
+			fmt.Fprintf(&sb, ".%d", e.field)
+		}
+	}
+	return sb.String()
 }
 
 func (ex *Exec) convert(st *State, ins *ssa.Convert) Value {
@@ -623,11 +967,54 @@ func (ex *Exec) convert(st *State, ins *ssa.Convert) Value {
 		if _, ss, ok2 := intInfo(st0); ok2 {
 			return bvConv(x.(*Term), ss, dw)
 		}
+		if fv, isF := x.(FloatV); isF {
+			if fv.bits.isConst {
+				return bvConst(uint64(int64(floatFromBits(fv))), dw)
+			}
+			fail("convert symbolic float to integer")
+		}
+	}
+	if fw := floatWidth(dt); fw != 0 {
+		if fv, isF := x.(FloatV); isF {
+			if fv.bits.isConst {
+				return concreteFloat(floatFromBits(fv), fw)
+			}
+			if fw >= fv.w {
+				return fv // widening keeps the origin pattern
+			}
+			fail("narrowing conversion of symbolic float")
+		}
+		if t, isT := x.(*Term); isT && t.isConst {
+			_, ss, _ := intInfo(st0)
+			if ss {
+				return concreteFloat(float64(sext(t.v, t.w)), fw)
+			}
+			return concreteFloat(float64(t.v), fw)
+		}
+		fail("convert %s -> %s (symbolic)", st0, dt)
 	}
 	if isString(dt) {
-		if sl, ok := x.(SliceV); ok {
-			return StrV{segs: []Seg{{op: "bytes", args: []Value{sl}}}}
+		switch xv := x.(type) {
+		case SliceV:
+			return ex.bytesToString(st, xv)
+		case RopeRef:
+			return ex.ropeOf(st, xv)
+		case *Term:
+			if xv.isConst {
+				return litStr(string(rune(xv.v)))
+			}
 		}
+	}
+	if sl, ok := dt.Underlying().(*types.Slice); ok && isString(st0) {
+		if w, _, okw := intInfo(sl.Elem()); okw && w == 8 {
+			return ex.stringToBytes(st, x.(StrV))
+		}
+	}
+	if _, ok := dt.Underlying().(*types.Pointer); ok {
+		return x
+	}
+	if b, ok := dt.Underlying().(*types.Basic); ok && b.Kind() == types.UnsafePointer {
+		return x
 	}
 	fail("convert %s -> %s", st0, dt)
 	return nil
@@ -670,30 +1057,125 @@ func (st *State) container(s SliceV) Value {
 	return getPath(st.heap[s.obj].val, s.path)
 }
 
+// forkOnValues explores the feasible concrete values of t (at most max); cont is
+// called with the path specialised to each value. Always returns false.
+func (ex *Exec) forkOnValues(st *State, t *Term, max int, what string, cont func(st *State, v uint64) bool) bool {
+	var vals []uint64
+	ex.sol.Push()
+	for len(vals) <= max {
+		if ex.sol.Check() != "sat" {
+			break
+		}
+		vs := ex.sol.GetValues([]string{t.s})
+		v, ok := parseBV(vs[0])
+		if !ok {
+			ex.sol.Pop()
+			fail("cannot read model value for %s", what)
+		}
+		vals = append(vals, v)
+		ex.sol.Assert(tNot(tEq(t, bvConst(v, t.w))))
+	}
+	ex.sol.Pop()
+	if len(vals) > max {
+		fail("more than %d feasible values for %s", max, what)
+	}
+	sort.Slice(vals, func(i, j int) bool { return vals[i] < vals[j] })
+	if len(vals) == 0 {
+		ex.Infeasible++
+		ex.endPath(st, "infeasible")
+		return false
+	}
+	for i, v := range vals {
+		s := st
+		if i < len(vals)-1 {
+			s = st.clone()
+			ex.Forks++
+		}
+		ex.sol.Push()
+		ex.sol.Assert(tEq(t, bvConst(v, t.w)))
+		if cont(s, v) {
+			ex.run(s)
+		}
+		ex.sol.Pop()
+	}
+	return false
+}
+
 func (ex *Exec) indexAddr(st *State, fr *Frame, ins *ssa.IndexAddr) bool {
 	x := ex.eval(st, ins.X)
 	i := ex.eval(st, ins.Index).(*Term)
 	_, isigned, _ := intInfo(ins.Index.Type())
 	i = bvConv(i, isigned, 64)
+	var base PtrV
+	var off, n *Term
 	switch xv := x.(type) {
 	case SliceV:
-		if !ex.check(st, bvCmp("bvuge", i, xv.len), "panic", "index out of range", ins) {
-			return false
-		}
-		idx := bvBin("bvadd", xv.off, i)
-		fr.env[ins] = PtrV{obj: xv.obj, path: extendPath(xv.path, PathElem{idx: idx})}
+		base, off, n = PtrV{obj: xv.obj, path: xv.path}, xv.off, xv.len
 	case PtrV: // pointer to array
 		if xv.obj == 0 {
 			ex.check(st, tTrue, "panic", "nil pointer dereference", ins)
+			ex.endPath(st, "panic")
 			return false
 		}
-		n := ins.X.Type().Underlying().(*types.Pointer).Elem().Underlying().(*types.Array).Len()
-		if !ex.check(st, bvCmp("bvuge", i, u64(n)), "panic", "index out of range", ins) {
-			return false
-		}
-		fr.env[ins] = PtrV{obj: xv.obj, path: extendPath(xv.path, PathElem{idx: i})}
+		base, off = xv, u64(0)
+		n = u64(ins.X.Type().Underlying().(*types.Pointer).Elem().Underlying().(*types.Array).Len())
 	default:
 		fail("IndexAddr on %T", x)
+	}
+	if !ex.check(st, bvCmp("bvuge", i, n), "panic", "index out of range", ins) {
+		ex.endPath(st, "panic")
+		return false
+	}
+	idx := bvBin("bvadd", off, i)
+	if !idx.isConst && base.obj != 0 {
+		if _, composite := getPath(st.heap[base.obj].val, base.path).(ArrV); composite {
+			// symbolic index into a host-side vector: case split
+			return ex.forkOnValues(st, idx, 64, "index into composite slice", func(s *State, v uint64) bool {
+				s.top().env[ins] = PtrV{obj: base.obj, path: extendPath(base.path, PathElem{idx: u64(int64(v))})}
+				return true
+			})
+		}
+	}
+	fr.env[ins] = PtrV{obj: base.obj, path: extendPath(base.path, PathElem{idx: idx})}
+	return true
+}
+
+func (ex *Exec) index(st *State, fr *Frame, ins *ssa.Index) bool {
+	x := ex.eval(st, ins.X)
+	i := ex.eval(st, ins.Index).(*Term)
+	_, isigned, _ := intInfo(ins.Index.Type())
+	i = bvConv(i, isigned, 64)
+	switch xv := x.(type) {
+	case StrV:
+		s, ok := xv.concrete()
+		if !ok {
+			fail("index into non-literal string")
+		}
+		if !ex.check(st, bvCmp("bvuge", i, u64(int64(len(s)))), "panic", "index out of range", ins) {
+			ex.endPath(st, "panic")
+			return false
+		}
+		if !i.isConst {
+			fail("symbolic index into string")
+		}
+		fr.env[ins] = bvConst(uint64(s[i.v]), 8)
+	case ArrV:
+		if !ex.check(st, bvCmp("bvuge", i, u64(int64(len(xv.e)))), "panic", "index out of range", ins) {
+			ex.endPath(st, "panic")
+			return false
+		}
+		if !i.isConst {
+			fail("symbolic index into array value")
+		}
+		fr.env[ins] = xv.e[i.v]
+	case BytesV:
+		if !ex.check(st, bvCmp("bvuge", i, xv.n), "panic", "index out of range", ins) {
+			ex.endPath(st, "panic")
+			return false
+		}
+		fr.env[ins] = xv.a.sel(i)
+	default:
+		fail("Index on %T", x)
 	}
 	return true
 }
@@ -718,6 +1200,24 @@ func (ex *Exec) slice(st *State, fr *Frame, ins *ssa.Slice) bool {
 			return false
 		}
 		base = SliceV{obj: xv.obj, path: xv.path, off: u64(0), len: u64(n), cap: u64(n)}
+	case StrV:
+		s, ok := xv.concrete()
+		if !ok {
+			fail("slicing a non-literal string")
+		}
+		lo := conv(ins.Low, u64(0))
+		hi := conv(ins.High, u64(int64(len(s))))
+		if !lo.isConst || !hi.isConst {
+			fail("slicing a string with symbolic bounds")
+		}
+		if lo.v > hi.v || hi.v > uint64(len(s)) {
+			ex.check(st, tTrue, "panic", "slice bounds out of range", ins)
+			return false
+		}
+		fr.env[ins] = litStr(s[lo.v:hi.v])
+		return true
+	case RopeRef:
+		fail("slicing the result of Buffer.Bytes()")
 	default:
 		fail("Slice of %T", x)
 	}
@@ -738,9 +1238,18 @@ func (ex *Exec) makeSlice(st *State, fr *Frame, ins *ssa.MakeSlice) bool {
 	n := bvConv(ex.eval(st, ins.Len).(*Term), ls, 64)
 	_, cs, _ := intInfo(ins.Cap.Type())
 	c := bvConv(ex.eval(st, ins.Cap).(*Term), cs, 64)
+	// the runtime panics for negative or absurd lengths; anything above 2^31 elements is
+	// treated as "len out of range" (it is at least an allocation the datagram cannot justify)
 	bad := tOr(bvCmp("bvugt", n, u64(1<<31)), bvCmp("bvugt", n, c))
-	if !ex.check(st, bad, "panic", "makeslice: len out of range (> 2^31 or > cap)", ins) {
+	if !ex.check(st, bad, "panic", "makeslice: len out of range", ins) {
+		ex.endPath(st, "panic")
 		return false
+	}
+	if ex.allocBound != nil {
+		if !ex.check(st, bvCmp("bvugt", c, ex.allocBound), "alloc", "allocation larger than the bound derived from the datagram size", ins) {
+			ex.endPath(st, "alloc")
+			return false
+		}
 	}
 	if w, _, ok := intInfo(elem); ok {
 		id := st.alloc(types.NewArray(elem, 0), BytesV{a: &ArrExpr{kind: 1, w: w}, n: c, w: w})
@@ -748,7 +1257,15 @@ func (ex *Exec) makeSlice(st *State, fr *Frame, ins *ssa.MakeSlice) bool {
 		return true
 	}
 	if !c.isConst {
-		fail("make of composite slice with symbolic cap")
+		return ex.forkOnValues(st, c, 64, "capacity of a composite make", func(s *State, v uint64) bool {
+			a := ArrV{e: make([]Value, v)}
+			for i := range a.e {
+				a.e[i] = zeroValue(elem)
+			}
+			id := s.alloc(types.NewArray(elem, int64(v)), a)
+			s.top().env[ins] = SliceV{obj: id, off: u64(0), len: n, cap: u64(int64(v))}
+			return true
+		})
 	}
 	a := ArrV{e: make([]Value, c.v)}
 	for i := range a.e {
